@@ -525,3 +525,55 @@ def _same(a, b):
         return None
     return None if canon.canon(a) == canon.canon(b) else \
         '%r vs %r' % (a, b)
+
+
+# ------------------------------------------------------------------ curated frames
+
+ALL_TAG_TABLE = [
+    ['bool', ['t', 1]], ['i8', ['b', -2]], ['u8', ['B', 200]], ['i16', ['s', -300]],
+    ['u16', ['u', 60000]], ['i32', ['I', -70000]], ['u32', ['i', 4000000000]],
+    ['i64', ['l', -2**40]], ['L', ['L', 2**40]], ['f', ['f', 1.5]],
+    ['d', ['d', 0.1]], ['dec', ['D', 2, -314]], ['str', ['S', b'caf\xc3\xa9']],
+    ['raw', ['S', b'\xff\xfe']], ['arr', ['A', [['b', 1], ['S', b'x'], ['V']]]],
+    ['ts', ['T', 1600000000]], ['tbl', ['F', [['k', ['t', 0]], ['', ['V']]]]],
+    ['void', ['V']], ['nul', ['\x00']], ['bytes', ['x', b'\x00\x01\xce']],
+    ['nest', ['F', [['a', ['A', [['F', [['z', ['A', []]]]]]]]]]],
+]
+
+
+def catalogue_frames():
+    """one deterministic wire frame per method class (tables carry all 19 tags), two
+    content headers (all properties; two flag words), a body, a heartbeat, a protocol
+    header"""
+    out = []
+    for i, m in enumerate(spec_table.METHODS):
+        args = {}
+        for j, f in enumerate(m.fields):
+            t = f.type
+            if t in ('octet', 'short', 'long'):
+                args[f.name] = (j * 37 + 5) % 250
+            elif t == 'longlong':
+                args[f.name] = -(j + 2) * 1000003
+            elif t == 'bit':
+                args[f.name] = (i + j) % 2 == 0
+            elif t == 'shortstr':
+                args[f.name] = 'n%d.%s' % (j, f.wire[:6])
+            elif t == 'longstr':
+                args[f.name] = b'long \xe2\x9c\x88 %d' % j
+            else:
+                args[f.name] = ALL_TAG_TABLE
+        out.append({'kind': 'method', 'cls': m.dotted, 'ch': 1 + i, 'args': args})
+    props = {}
+    for j, (n, _, w, _) in enumerate(spec_table.PROPERTIES):
+        props[n] = {'octet': 1 + j % 2, 'shortstr': 'p%d' % j,
+                    'table': ALL_TAG_TABLE, 'timestamp': 1500000000 + j}[w]
+    out.append({'kind': 'header', 'ch': 7, 'body_size': 2**40, 'weight': 0,
+                'unused_bit': False, 'extra_words': [], 'props': props})
+    out.append({'kind': 'header', 'ch': 8, 'body_size': 3, 'weight': 0,
+                'unused_bit': True, 'extra_words': [0x8000, 0x0002],
+                'props': {'content_type': 'abc', 'priority': 0,
+                          'timestamp': 1700000000123}})
+    out.append({'kind': 'body', 'ch': 9, 'data': b'hello \xce world'})
+    out.append({'kind': 'heartbeat', 'ch': 0})
+    out.append({'kind': 'protocol', 'ch': 0, 'version': (0, 9, 1)})
+    return out
